@@ -101,6 +101,9 @@ pub enum Tok {
     PushLabelPlus(u8, i32),
     /// PUSH of the total code length plus delta.
     PushLen(i32),
+    /// PUSH of |offset of label `id` - offset of this PUSH + delta| (0xfe when that is negative and `forward`, or positive
+    /// and not `forward`): the distance a PC-relative jump adds to (forward) or subtracts from (backward) a PC read.
+    PushDistance(u8, i32, bool),
 }
 
 pub fn push_bytes(v: U) -> Vec<u8> {
@@ -142,7 +145,7 @@ fn tok_len(t: &Tok, wide_labels: bool) -> usize {
                 1 + bias.to_be_min().len()
             }
         }
-        Tok::PushLabelPlus(..) | Tok::PushLen(_) => {
+        Tok::PushLabelPlus(..) | Tok::PushLen(_) | Tok::PushDistance(..) => {
             if wide_labels {
                 3
             } else {
@@ -199,6 +202,12 @@ pub fn assemble(toks: &[Tok]) -> Vec<u8> {
                     push_small(off + *d as i64, &mut out);
                 }
                 Tok::PushLen(d) => push_small(total as i64 + *d as i64, &mut out),
+                Tok::PushDistance(id, d, forward) => {
+                    let off = offsets.get(id).copied().unwrap_or(0xfe) as i64;
+                    let dist = off - out.len() as i64 + *d as i64;
+                    let dist = if *forward { dist } else { -dist };
+                    push_small(if dist < 0 { 0xfe } else { dist }, &mut out);
+                }
             }
         }
         assert_eq!(out.len(), total);
